@@ -156,7 +156,13 @@ def run(tier):
         maxf = int(os.environ.get("VERIF_C11_MAXFAULTY", "2" if tier == "quick" else "3"))
     except ValueError:
         maxf = 2
-    g = tlc("mc/MC_Batch", workers=8, timeout=3000, env={"MAXFAULTY": maxf}, xmx="8g")
+    # the .luaurc configurations: one assigned fault fewer (their cases cost five times the runs; a fault and the shared
+    # context interact through ONE faulty file already)
+    try:
+        rcmaxf = int(os.environ.get("VERIF_C11_RCMAXFAULTY", maxf - 1))
+    except ValueError:
+        rcmaxf = maxf - 1
+    g = tlc("mc/MC_Batch", workers=8, timeout=3000, env={"MAXFAULTY": maxf, "RCMAXFAULTY": rcmaxf}, xmx="8g")
     tlc_ok(g, "MC_Batch (enumeration + internal theorems of the model)")
     cases = g.tagged("CASE")
     if len(cases) < 20000:
@@ -231,6 +237,7 @@ def run(tier):
             "cases_by_number_of_faulty_files": {k[len("faulty_files:"):]: v for k, v in cov.items() if k.startswith("faulty_files:")},
             "fail_fast_cases": cov["failfast:True"],
             "max_assigned_faults_per_case": maxf,
+            "max_assigned_faults_per_case_luaurc_configurations": rcmaxf,
         },
         "coverage_by_dimension": {k: v for k, v in sorted(cov.items()) if not k.startswith("kind:") and not k.startswith("faulty_files:")},
         "expected_outputs_checked": stats["expected_outputs"],
@@ -253,7 +260,7 @@ def run(tier):
 
 
 ASSUMPTIONS = [
-    "bounded universe: 5 Lua files (top level, nested .luau, `my file.v2.lua`, `%C3%A9.lua` = e-acute, inside a directory named d.lua), 4 non-Lua files, at most 2 (quick) / 3 (thorough) assigned faults per tree (a blocking file can make further files faulty); files outside the input are healthy bystanders",
+    "bounded universe: 5 Lua files (top level, nested .luau, `my file.v2.lua`, `%C3%A9.lua` = e-acute, inside a directory named d.lua), 4 non-Lua files, at most 2 (quick) / 3 (thorough) assigned faults per tree, one fewer in the .luaurc configurations (a blocking file can make further files faulty); files outside the input are healthy bystanders",
     "an unwritable destination is produced by a regular file in place of the destination's parent directory or by a non-empty directory at the destination (the checks run as root: permissions are not used); it is only assigned under an existing output directory; a directory given as input with an existing regular FILE as output makes every destination unwritable",
     "a faulty file counts as reported when some error message names its source path, its destination path or, for a blocked destination, the part of the destination path that could not be created",
     "a rule error is a require of a missing module with bundling configured (bundling is configured exactly in the cases that contain such a file); healthy files do not require each other",
